@@ -9,5 +9,9 @@ def range_from_index(index: int | slice, length: int) -> range:
 
 
 def slice_from_range(r: range) -> slice:
+    if r.step < 0 and not r:
+        # An empty reversed range may start at -1 ("before index 0"), which a slice would read as
+        # the last element.
+        return slice(0, 0, r.step)
     stop = r.stop if r.stop != -1 else None
     return slice(r.start, stop, r.step)
